@@ -146,6 +146,26 @@ def c10(ctx):
                 "held after destruction (hooks + LeakSanitizer). A comparison is distinct+non-trivial when the key-set hash is new and the tree has >= 1 inner node")
 
 
+# ------------------------------------------------------------- E2 lock_conc
+@prop("C07")
+def c07(ctx):
+    thorough = ctx.tier == "thorough"
+    n = scaled(16000 if thorough else 1600)
+    for cfg in ("dbg", "rel"):
+        ctx.stage("lock-" + cfg, "lock_conc", cfg, worker_args(ctx.seed + (0 if cfg == "dbg" else 500), n // 2, 8, ["--walks", "60" if thorough else "40"]), timeout=3600)
+    ctx.rule = ("programs of 2-3 threads x 1-4 operations {read section with 0-2 mid checks, upgrade+multi-word write+unlock (explicit or by guard), "
+                "write+unlock_and_obsolete, upgrade-only} on one optimistic_lock with 2-4 protected fields, executed under the serialized scheduler "
+                "(every lock-word and field access is a scheduling point): per program a baseline, an exhaustive depth-1 preemption sweep (every thread "
+                "at every point, both orders of the others), an exhaustive depth-2 sweep over all pairs of global preemption points for 2-thread "
+                "programs of <= 60 steps, and random walks (p=0.3/0.1). An execution is distinct+non-trivial when its context-switch signature is new "
+                "for that program and a write section overlapped an open read section")
+    ctx.assumptions = ["sequentially consistent interleavings at hook granularity (x86-TSO); weakened memory orders are not observable here",
+                       "shadow writer/obsolete state lags only in the permissive direction (DESIGN 2.1)",
+                       "plain std::threads; read sections follow the documented protocol (must_restart checked first)"]
+    ctx.floors = [("programs_swept_depth1", 100), ("programs_swept_depth2", 50), ("executions_write_overlapping_open_read", 1000),
+                  ("obsolete_seen_by_try_read_lock", 100), ("upgrades_failed", 100), ("failed_validations", 100)]
+
+
 # ------------------------------------------------------------------ setup
 def setup_specs():
     """Every (engine, configuration) the quick tier needs; built by `check setup`."""
@@ -153,4 +173,6 @@ def setup_specs():
         ("codec", "dbg-asan", {}),
         ("codec", "rel", {}),
         ("seqmodel", "dbg-asan", {}),
+        ("lock_conc", "dbg", {}),
+        ("lock_conc", "rel", {}),
     ]
